@@ -5,7 +5,7 @@ E2 = "E2-mirsym"
 ENGINES = [
     {"name": E1, "path": "/verif/lib/kanirun.py", "serves_properties": ["C05", "C08", "C18", "C19"],
      "kind_free_text": "Kani 0.68 proof harnesses (CBMC 6.11 + CaDiCaL) over hyperdriver's compiled functions; harness sources in /verif/kani, instantiated per concrete size by /verif/props/<id>.py"},
-    {"name": E2, "path": "/verif/mirsym/run.py", "serves_properties": ["C12", "C13", "C17", "C20"],
+    {"name": E2, "path": "/verif/mirsym/run.py", "serves_properties": ["C09", "C12", "C13", "C16", "C17", "C20"],
      "kind_free_text": "path-wise symbolic execution of rustc's MIR (-Zunpretty=mir, regenerated from /repo on every run) with z3 (strings/bit-vectors), cvc5 cross-check, library calls replaced by a contract-level model table, counterexamples replayed through the public API by /verif/native"},
 ]
 NOTES = "see DESIGN.md. exit 0 = all obligations discharged within the stated bounds; exit 1 = VIOLATION (replayed natively); exit 2 = inconclusive (timeout, OOM, unsupported construct, unreproduced counterexample)."
@@ -20,8 +20,12 @@ CLAIMS = {
             "text": "ReadVersion::poll decided for every byte valuation from every reachable undecided state and every chunking of one poll (base + step = any number of reads); Rewind replays exactly the consumed bytes."},
     "C13": {"engine": E2, "design_ref": "DESIGN.md 2/C13", "technique": "symbolic execution of rustc MIR with SMT (z3 strings/bit-vectors), counterexamples replayed natively", "note": MIR_NOTE,
             "text": "Host header insertion, HTTP/1 request-target rewriting and HTTP/2 sanitising decided for all abstract well-formed URIs x versions x methods x header presets."},
+    "C09": {"engine": E2, "design_ref": "DESIGN.md 2/C09", "technique": "symbolic execution of rustc MIR with SMT, channel operations as contract-level models, counterexamples replayed natively", "note": MIR_NOTE,
+            "text": "The duplex listener's accept paths decided for every queue of <= 3 connection requests with any subset of clients having given up: an error / end of stream is produced only when the listener's channel is closed. Partial: the serving loop itself and OS listeners are outside (stated)."},
     "C12": {"engine": E2, "design_ref": "DESIGN.md 2/C12", "technique": "symbolic execution of rustc MIR with SMT (z3), counterexamples replayed natively", "note": MIR_NOTE,
             "text": "TlsTransport::call / TlsTransportWrapper::call decided for every URI form and TLS configuration: TLS iff configured and https|wss, server name = URI host, no plaintext connect after a TLS-side error, and building the TLS stream cannot panic for any syntactically valid host."},
+    "C16": {"engine": E2, "design_ref": "DESIGN.md 2/C16", "technique": "symbolic execution of rustc MIR with SMT; VecDeque as a list model validated through the verif-hooks feature", "note": MIR_NOTE,
+            "text": "sort_preferred / set_port / from_binding decided for every address list up to length 7 in every family arrangement with symbolic payloads: element identity per output position against the specification list."},
     "C17": {"engine": E2, "design_ref": "DESIGN.md 2/C17", "technique": "symbolic execution of rustc MIR with SMT (z3): reachability of panic terminators", "note": MIR_NOTE,
             "text": "Every panic site named by the property's anchors (version conversion, HTTP/1 URI helpers, Host header, pool key, host/port extraction, TLS server name) is shown unreachable for all request values within the stated bounds, without assuming caller preconditions."},
     "C18": {"engine": E1, "design_ref": "DESIGN.md 2/C18", "technique": "bounded model checking of the compiled code (Kani/CBMC)", "note": KANI_NOTE,
@@ -41,8 +45,6 @@ NOT_APPLICABLE = {
     "C04": "not claimed yet: same as C02",
     "C06": "not claimed yet: check under construction (MIR engine)",
     "C07": "not claimed yet: check under construction",
-    "C09": "not claimed yet: check under construction",
     "C15": "not claimed yet: same as C02",
-    "C16": "not claimed yet: check under construction (MIR engine)",
     "C14": "needs a live Checkout polled after a push and the delayed-drop respawn path; same blockers as C03.",
 }
